@@ -9,6 +9,21 @@ CHECKS = {
     technique="TLA+ spec of the landscape sweep model-checked by TLC against the k-th-largest-tent definition; spec->code replay of TLC's input set and code->spec batch trace validation (hook events + results) by TLC",
     text="TLC exhaustively checks the sweep (one action per loop branch, as coded and as intended) against the definitional k-th largest tent for every multiset of up to 4 (thorough 5) bars on an even-tick lattice, including the sweep's inductive Residual invariant; every input TLC explored is replayed through PersLandscapeExact, and thousands of seeded random diagrams (<=12 bars, ties, repeated bars, several degrees, exact and inexact float embeddings) are recorded with hook events and validated by TLC line by line: property layer (equality with the definition at every integer tick, which is every real t because all breakpoints are integer ticks) raises alarms, algorithm layer only divergence notes.",
     note="Bounded: M by MaxT/MaxBars, R/V by seeds. Inputs on a tick lattice under affine float embeddings (dyadic: exact equality; decimal: snapped within 1e-9). Trusts TLC, the JSON encoder/decoder in harness, and Fraction decoding. The repeated-bar shortcut defect is a recorded known finding matched by spec-decided input class AND equality with the as-coded model's output."),
+ "C01": dict(
+    cat="model_checking", ref="DESIGN.md 5/C01",
+    technique="TLA+ state machine of persim.bottleneck (filter/pad/matrix/binary search with any-maximum-matching nondeterminism) model-checked by TLC against the definitional min over partial pairings; spec->code replay of the spec's diagram set; code->spec batch validation where TLC checks optimality certificates (perfect matching + Hall violator) against its own definitional cost matrix",
+    text="TLC checks Optimal, SearchInv and WarnIffDropped for every pair of lattice diagrams within the constants (<=3 vs <=3 points, thorough <=4 vs <=3, incl. diagonal, repeated and infinite-death points). Every diagram TLC enumerated is replayed through the real function in random row order, 11 float embeddings (incl. 2^-50 and 2^30 scales) and 3 (thorough 32) PYTHONHASHSEEDs; random diagrams up to 14 (thorough 300) points are validated by TLC through certificates it verifies itself (costs are integer half ticks so infeasibility at hopt-1 proves optimality), plus brute force up to 7 points. Hook probes are replayed against the search as coded (algorithm layer, divergence only).",
+    note="Bounded by constants/seeds. Certificates are found by the harness (SciPy matching) but validated by TLC; a bad certificate is exit 2, never a verdict. Exact embeddings demand equality; inexact ones snap within 1e-9."),
+ "C02": dict(
+    cat="model_checking", ref="DESIGN.md 5/C02",
+    technique="TLA+ model of the augmented-matrix assignment (any optimal assignment) model-checked by TLC for all small cost tables; recorded executions validated by TLC with fixed-point (limb) arithmetic: sqrt tables verified by squaring, optimality by brute force over partial pairings or LP-duality certificates",
+    text="Design theorem AugmentedEqualsPartial checked by TLC for every cost table obeying the diagonal inequality (<=2 vs <=3 points, costs 0..3). The real function is run on lattice diagrams under 11 embeddings; TLC recomputes the definition (Euclidean pair cost, perpendicular diagonal cost) in 1e-16 fixed point and requires agreement to 1e-12 (exact embeddings) / 1e-9, by brute force up to 3 vs 3 points and by dual certificates up to 9 vs 9 (thorough 30 vs 30) points.",
+    note="sqrt values are supplied by the harness (integer isqrt) and verified by TLC by squaring. Absolute values only on lattice inputs; general floats are covered through the embeddings. Above 30 points only C07's laws apply."),
+ "C06": dict(
+    cat="model_checking", ref="DESIGN.md 5/C06",
+    technique="TLC explores every matching the nondeterministic matching/assignment steps of the TLA+ models may return and checks Certifies; matchings returned by the real functions are validated by TLC against the definitional cost rules",
+    text="Bottleneck.tla with TrackMatching and Wasserstein.tla return ANY perfect matching of the threshold graph / ANY optimal assignment; CertifiesInv holds in every reachable final state. Matchings from persim.bottleneck / persim.wasserstein (hash seeds 0..2, thorough 0..31; sizes to 300 points for bottleneck) are checked row by row by TLC: each index exactly once, -1 conventions, placeholder index 0 for an empty diagram, row cost = the distance's own rule, max / sum = distance, same distance with and without matching.",
+    note="Row indices refer to the diagram after infinite-death points were dropped (made explicit by the spec's Filter action). Wasserstein costs compared in fixed point with 1e-12/1e-9 tolerance; bottleneck costs exactly (half ticks)."),
 }
 
 NOT_APPLICABLE_REASON = "check under construction in this round; see DESIGN.md section 5"
